@@ -225,17 +225,21 @@ def exec_plan(exe, lines, tier, env, crash_prop):
     return classes, hist
 
 
-def shrink(exe, lines, tier, env, crash_prop, cls, max_runs=400, max_s=90):
-    """Greedy delta-debugging over plan lines, then argument shrinking, keeping `cls`."""
+def shrink(exe, lines, tier, env, crash_prop, cls, max_runs=400, max_s=90, attempts=1):
+    """Greedy delta-debugging over plan lines, then argument shrinking, keeping `cls`.
+    attempts > 1: the violation is not deterministic; a candidate keeps it if any of `attempts` executions shows it."""
     t0 = time.time()
     runs = [0]
 
     def still(ls):
-        if runs[0] >= max_runs or time.time() - t0 > max_s:
-            return False
-        runs[0] += 1
-        classes, _ = exec_plan(exe, ls, tier, env, crash_prop)
-        return cls in classes
+        for _ in range(attempts):
+            if runs[0] >= max_runs or time.time() - t0 > max_s:
+                return False
+            runs[0] += 1
+            classes, _ = exec_plan(exe, ls, tier, env, crash_prop)
+            if cls in classes:
+                return True
+        return False
 
     cur = list(lines)
     n = 2
@@ -344,13 +348,29 @@ class Outcome:
             lines = gen_plan(b.exe, v['idx'], b.tier, b.env)
             c1, h1 = exec_plan(b.exe, lines, b.tier, b.env, cls.prop)
             c2, h2 = exec_plan(b.exe, lines, b.tier, b.env, cls.prop)
+            # The harness is deterministic (proved on the unchanged tree: same seed, same history digest), so a
+            # violation whose fresh-process executions disagree with each other comes from code under test that is
+            # itself not a function of its inputs (uninitialised memory, an address, a clock).  That is reported as
+            # the violation it is, marked non-deterministic, provided the class recurs; a class that shows once in
+            # the batch and never again in six fresh processes is not believed (exit 2).
+            nondet = False
             if cls not in c1 or cls not in c2 or h1 != h2:
-                raise HarnessError('violation %s (run %d of %s) did not reproduce deterministically in fresh '
-                                   'processes: first=%s/%s second=%s/%s' % (cls.key(), v['idx'], b.exe,
-                                                                            sorted(x.key() for x in c1), h1,
-                                                                            sorted(x.key() for x in c2), h2))
-            small, nruns = shrink(b.exe, lines, b.tier, b.env, cls.prop, cls)
+                tries = [(c1, h1), (c2, h2)] + [exec_plan(b.exe, lines, b.tier, b.env, cls.prop) for _ in range(4)]
+                hits = [t for t in tries if cls in t[0]]
+                if len(hits) >= 2 and len({t[1] for t in tries}) > 1:
+                    nondet = True
+                    c1, h1 = hits[0]
+                else:
+                    raise HarnessError('violation %s (run %d of %s) did not reproduce in fresh processes (%d of %d '
+                                       'executions show it): first=%s/%s second=%s/%s' % (
+                                           cls.key(), v['idx'], b.exe, len(hits), len(tries),
+                                           sorted(x.key() for x in c1), h1, sorted(x.key() for x in c2), h2))
+            small, nruns = shrink(b.exe, lines, b.tier, b.env, cls.prop, cls, attempts=3 if nondet else 1)
             c3, h3 = exec_plan(b.exe, small, b.tier, b.env, cls.prop)
+            for _ in range(5 if nondet else 0):
+                if cls in c3:
+                    break
+                c3, h3 = exec_plan(b.exe, small, b.tier, b.env, cls.prop)
             if cls not in c3:
                 small, c3, h3 = lines, c1, h1
             k = known_match(cls, known)
@@ -362,7 +382,7 @@ class Outcome:
                            label=b.label, tier=b.tier, env={k2: v2 for k2, v2 in b.env.items()},
                            seed=self.seed, run_index=v['idx'], original_ops=len(lines),
                            minimised_ops=len(small), shrink_reruns=nruns, history_digest=h3,
-                           plan=small), open(rp, 'w'), indent=1)
+                           nondeterministic=nondet, plan=small), open(rp, 'w'), indent=1)
             replays.append(rp)
             if k:
                 print('KNOWN-FINDING: property=%s %s [%s] replay=%s' % (self.prop, k.get('what', cls.key()), cls.key(), rp))
@@ -371,6 +391,9 @@ class Outcome:
                 violations += 1
                 print('VIOLATION property=%s replay=%s' % (self.prop, rp))
                 print('  class=%s detail=%s' % (cls.key(), c3.get(cls, '')))
+                if nondet:
+                    print('  note: executions of this plan in fresh processes differ from each other (history digests '
+                          'disagree): the code under test is not a function of its inputs here; the replay retries')
         self.write_evidence(violations, known_hit, replays)
         sys.stdout.flush()
         return 1 if violations else 0
@@ -444,10 +467,14 @@ def replay_file(path, build_exe):
     exe = build_exe(d)
     cls = VClass(**d['violation_class'])
     classes, hist = exec_plan(exe, d['plan'], d['tier'], d.get('env', {}), cls.prop)
+    for _ in range(7 if d.get('nondeterministic') else 0):
+        if cls in classes:
+            break
+        classes, hist = exec_plan(exe, d['plan'], d['tier'], d.get('env', {}), cls.prop)
     if cls in classes:
         print('REPRODUCED property=%s class=%s history=%s detail=%s' % (cls.prop, cls.key(), hist, classes[cls]))
         if d.get('history_digest') and d['history_digest'] != hist:
-            print('  note: history digest differs from the recorded one (%s): the tree changed since' % d['history_digest'])
+            print('  note: history digest differs from the recorded one (%s): %s' % (d['history_digest'], 'expected, this violation is marked non-deterministic' if d.get('nondeterministic') else 'the tree changed since'))
         return 1
     print('NOT-REPRODUCED property=%s class=%s (history=%s, classes seen: %s)' % (
         cls.prop, cls.key(), hist, sorted(c.key() for c in classes)))
